@@ -405,6 +405,18 @@ class PendingFor(_PendingLoop[For]):
         self.nsp.loop_stack.append(self)
 
     def get_result(self) -> list[expr]:
+        # The target of a for loop is an ordinary variable of the enclosing
+        # namespace (it is still bound after the loop, may be rebound in the
+        # body, may be global/nonlocal/a class member, ...), so the
+        # comprehension iterates over a tmp var which is assigned to the
+        # target at the beginning of every iteration.
+        for_loop_target = Name(id=ol_name(OL_FOR_ITEM), ctx=Store())
+        self.converted_body[0:0] = PendingAssign(
+            Assign(targets=[self.node.target], value=for_loop_target),
+            self.nsp,
+            self.nsp_global,
+        ).assign_auto(self.node.target, Name(id=for_loop_target.id, ctx=Load()))
+
         # if no break/continue/return used
         # use the simplest list comprehension
         if self.interrupt_cnt == 0 and len(self.node.orelse) == 0:
@@ -413,7 +425,7 @@ class PendingFor(_PendingLoop[For]):
                     elt=self.nsp_global.expr_wraper(self.converted_body),
                     generators=[
                         comprehension(
-                            target=self.node.target,
+                            target=for_loop_target,
                             iter=expr_transf(self.nsp, self.node.iter),
                             ifs=[],
                             is_async=0,
@@ -484,7 +496,7 @@ class PendingFor(_PendingLoop[For]):
             elt=self.nsp_global.expr_wraper(self.converted_body),
             generators=[
                 comprehension(
-                    target=self.node.target,
+                    target=for_loop_target,
                     iter=for_loop_iter,
                     ifs=[],
                     is_async=0,
